@@ -216,6 +216,68 @@ LADDER_FAMILIES_CSS = {
 }
 
 
+# Depth ladders: one nesting construct repeated d times (d <= 62; the domain scanner drops what exceeds the
+# property's nesting bound). Time, heap and output size must stay polynomial in the depth as well: a
+# construct that duplicates its operand's code per level shows up as an exponent far above GROWTH_MAX.
+DEPTHS = [3, 5, 8, 11, 14, 17, 20, 24, 28, 31, 40, 50, 62]
+
+
+def _b(e):
+    return '<a b="{{ ' + e + ' }}" wx:if="{{ ' + e + ' }}">{{ ' + e + ' }}</a><template is="t" data="{{ x: ' + e + ' }}"/><slot v="{{ ' + e + ' }}"/>'
+
+
+DEPTH_FAMILIES_WXML = {
+    "obj-spread": lambda d: _b("{..." * d + "a" + "}" * d),
+    "obj-spread-2": lambda d: _b("{...b, k: 1, ..." * d + "a" + "}" * d),
+    "arr-spread": lambda d: _b("[..." * d + "a" + "]" * d),
+    "arr-spread-2": lambda d: _b("[0, ...b, ..." * d + "a" + ", 1]" * d),
+    "obj-value": lambda d: _b("{k: " * d + "a" + "}" * d),
+    "arr-nest": lambda d: _b("[a, " * d + "b" + "]" * d),
+    "parens": lambda d: _b("(" * d + "a" + ")" * d),
+    "cond-right": lambda d: _b("a ? b : " * d + "c"),
+    "cond-left": lambda d: _b("(" * d + "a" + " ? b : c)" * d),
+    "cond-test": lambda d: _b("(" * d + "a" + " ? b : c) ? d : e" * d),
+    "cond-members": lambda d: _b("(a ? b : c)" + ".x" * d),
+    "cond-in-index": lambda d: _b("a[b ? " * d + "c" + " : d]" * d),
+    "index-nest": lambda d: _b("a[" * d + "0" + "]" * d),
+    "member-chain": lambda d: _b("a" + ".b" * d),
+    "dyn-chain": lambda d: _b("a" + "[b]" * d),
+    "call-nest": lambda d: _b("f(" * d + "a" + ")" * d),
+    "call-chain": lambda d: _b("f" + "(a)" * d),
+    "unary": lambda d: _b("!" * d + "a"),
+    "typeof": lambda d: _b("typeof " * d + "a"),
+    "plus-left": lambda d: _b("a + " * d + "b"),
+    "plus-right": lambda d: _b("a + (" * d + "b" + ")" * d),
+    "nullish": lambda d: _b("a ?? " * d + "b"),
+    "nullish-right": lambda d: _b("a ?? (" * d + "b" + ")" * d),
+    "logic-mix": lambda d: _b("a && b || " * d + "c"),
+    "spread-cond": lambda d: _b("{...(a ? " * d + "b" + " : c)}" * d),
+    "spread-member": lambda d: _b("{..." * d + "a" + "}.x" * d),
+    "arr-index": lambda d: _b("[" * d + "a" + "][0]" * d),
+    "obj-spread-arr": lambda d: _b("{...[..." * d + "a" + "]}" * d),
+    "text-bindings": lambda d: "<x>" + "{{a.b}}x" * d + "</x><y v='" + "{{a}}-" * d + "'/>",
+    "elements": lambda d: "<a b='{{c}}'>" * d + "{{d}}" + "</a>" * d,
+    "for-nest": lambda d: "".join(f'<a wx:for="{{{{ item.l }}}}" wx:for-item="i{k}" wx:key="k">' for k in range(d)) + "{{ item }}{{ index }}" + "</a>" * d,
+    "for-item-chain": lambda d: "".join(f'<a wx:for="{{{{ i{k - 1}.l }}}}" wx:for-item="i{k}" model:v="{{{{ i{k}.v }}}}">' if k else '<a wx:for="{{ l }}" wx:for-item="i0">' for k in range(d)) + "</a>" * d,
+    "if-nest": lambda d: '<a wx:if="{{ a }}">' * d + "{{ b }}" + "</a>" * d,
+    "if-else-nest": lambda d: '<a wx:if="{{ a }}">x</a><a wx:else>' * d + "{{ b }}" + "</a>" * d,
+    "block-nest": lambda d: '<block wx:for="{{ l }}"><block wx:if="{{ item }}">' * (d // 2) + "{{ item }}" + "</block></block>" * (d // 2),
+    "slot-value-nest": lambda d: "".join(f"<c><d slot:v{k}>" for k in range(d)) + "".join(f"{{{{ v{k} }}}}" for k in range(d)) + "</d></c>" * d,
+    "template-data": lambda d: '<template is="t" data="{{ ' + "x: {..." * d + "a" + "}" * d + ' }}"/>',
+}
+DEPTH_FAMILIES_CSS = {
+    "not-nest": lambda d: ":not(" * d + ".a .b" + ")" * d + "{c:d}",
+    "calc-nest": lambda d: "a{b:" + "calc(1rpx + " * d + "1px" + ")" * d + "}",
+    "calc-parens": lambda d: "a{b:calc(" + "(1rpx + " * d + "1px" + ")" * d + ")}",
+    "media-nest": lambda d: "@media (min-width:1rpx){" * d + ".a{b:1rpx}:host{c:d}" + "}" * d,
+    "layer-nest": lambda d: "@layer x{@supports (a:b){" * (d // 2) + ":host{c:1rpx}.a .b{}" + "}}" * (d // 2),
+    "brackets": lambda d: "a{b:" + "[(" * (d // 2) + "1rpx" + ")]" * (d // 2) + "}",
+    "func-nest": lambda d: "a{b:" + "f(g(" * (d // 2) + "1rpx" + "))" * (d // 2) + "}",
+    "at-prelude": lambda d: "@scope " + "(.a " * d + ".b" + ")" * d + "{.c{}}",
+    "import-conds": lambda d: '@import "a" layer(x) supports(' + "(" * d + "a:b" + ")" * d + ") screen;",
+}
+
+
 def fit_exponent(points):
     """Least-squares slope of log(y) over log(n)."""
     pts = [(math.log(n), math.log(max(y, 1))) for n, y in points if n > 0]
@@ -302,6 +364,13 @@ def run(run, pid, tier, seed, replay=None):
         for name, f in LADDER_FAMILIES_CSS.items():
             for n in sizes:
                 add("css", "ladder:" + name, f(n), {"opts": {"class_prefix": "p", "convert_host": True, "import_sign": "I"}, "ladder": (name, n)})
+        # depth ladders
+        for name, f in DEPTH_FAMILIES_WXML.items():
+            for d in DEPTHS:
+                add("tmpl", "ladder:depth-" + name, f(d), {"path": "a", "ladder": ("depth-" + name, d)})
+        for name, f in DEPTH_FAMILIES_CSS.items():
+            for d in DEPTHS:
+                add("css", "ladder:depth-" + name, f(d), {"opts": {"class_prefix": "p", "convert_host": True, "import_sign": "I", "host_is": "h"}, "ladder": ("depth-" + name, d)})
 
     # domain filter + dedup
     seen = set()
@@ -384,7 +453,7 @@ def run(run, pid, tier, seed, replay=None):
                 continue
             if extra and extra.get("ladder"):
                 name, size = extra["ladder"]
-                ladders.setdefault((kind, name, profile), []).append((n, steps, r["peak"]))
+                ladders.setdefault((kind, name, profile), []).append((n, steps, max(r["peak"], r.get("out_len") or 0)))
             if r["n_diag"] >= 1 or n >= 64:
                 run.shape(h[:16])
             if len(run.samples) < 4 and cls in ("dict-mutant", "neighbourhood"):
